@@ -151,6 +151,65 @@ func MockCatalogue() []*Request {
 			M("OnlyMap", F("tags", 1, "", Msg(q(id, "Tag")), MapOf("bool")), F("n", 2, "int64", Examples("3"))),
 			M("OnlyOptional", F("tag", 1, "", Msg(q(id, "Tag")), Opt()))}, svc(id, "Direct", "OnlyMap", "OnlyOptional")))
 	}
+	{ // several services in one file whose RPCs share response (and request) messages, and several RPCs of one
+		// service answering with the same message: everything the mock file declares per RPC or per response
+		// message lands in ONE package-level scope
+		id := "msvcshare"
+		tr := &Header{Name: "X-Trace-ID", Type: "string"}
+		msgs := []*Message{req,
+			M("Profile", F("bio", 1, "string", Examples("hello", "world")), F("verified", 2, "bool", Examples("false"))),
+			M("User", F("user_id", 1, "string"), F("name", 2, "string", Examples("Ann", "Bob")), F("age", 3, "int64", Examples("30", "41")), F("profile", 4, "", Msg(q(id, "Profile")))),
+			M("Status", F("ok", 1, "bool"), F("user", 2, "", Msg(q(id, "User"))), F("by", 3, "", Msg(q(id, "User")), MapOf("string")), F("ratio", 4, "double", Examples("0.5"))),
+			M("Empty")}
+		rpc := func(n, out string) *Method { return RPC(n, q(id, "Req"), q(id, out), "POST", "/"+n) }
+		add(mockReq(id, nil, msgs,
+			Svc("UserService", "/users", rpc("GetUser", "User"), rpc("FindUser", "User").WithHeaders(tr), rpc("PingUsers", "Empty")).WithHeaders(tr),
+			Svc("AdminService", "/admin", rpc("LookupUser", "User").WithHeaders(tr), rpc("Stat", "Status"), rpc("PingAdmin", "Empty")).WithHeaders(tr),
+			Svc("AuditService", "/audit", rpc("Audit", "Status"), rpc("LastUser", "User"), rpc("EchoReq", "Req"))))
+		// the minimal shape: two services, one RPC each, one shared response
+		id = "msvcshareone"
+		add(mockReq(id, nil, []*Message{req, M("User", F("name", 1, "string", Examples("Ann")), F("n", 2, "int64"))},
+			Svc("UserService", "/users", RPC("GetUser", q(id, "Req"), q(id, "User"), "POST", "/get")),
+			Svc("AdminService", "/admin", RPC("LookupUser", q(id, "Req"), q(id, "User"), "POST", "/lookup"))))
+		// shared response that is recursive, and a response nested in another message shared by two services
+		id = "msvcsharerec"
+		add(mockReq(id, nil, []*Message{req,
+			M("Node", F("v", 1, "string", Examples("n1")), F("next", 2, "", Msg(q(id, "Node"))), F("by", 3, "", Msg(q(id, "Node")), MapOf("string"))),
+			M("Outer", F("title", 1, "string")).WithNested(M("Inner", F("label", 1, "string"), F("hits", 2, "int64")))},
+			Svc("A", "/a", RPC("WalkA", q(id, "Req"), q(id, "Node"), "POST", "/walk"), RPC("InnerA", q(id, "Req"), q(id, "Outer.Inner"), "POST", "/inner")),
+			Svc("B", "/b", RPC("WalkB", q(id, "Req"), q(id, "Node"), "POST", "/walk"), RPC("InnerB", q(id, "Req"), q(id, "Outer.Inner"), "POST", "/inner"), RPC("OuterB", q(id, "Req"), q(id, "Outer"), "POST", "/outer"))))
+	}
+	return out
+}
+
+// RandomSharedMockRequests: seeded random files with 2..3 services whose RPCs draw their response type from
+// a pool of three messages (so that services and RPCs share them).
+func RandomSharedMockRequests(rng interface{ Intn(int) int }, n int) []*Request {
+	var out []*Request
+	for i := 0; i < n; i++ {
+		id := "msrnd" + string(rune('a'+i/26%26)) + string(rune('a'+i%26))
+		pkg := id + ".v1"
+		msgs := []*Message{M("Req", F("id", 1, "string")),
+			M("Leaf", F("note", 1, "string", Examples("leafy", "leafier")), F("n", 2, "int64")),
+			M("User", F("name", 1, "string"), F("ok", 2, "bool", Examples("false")), F("leaf", 3, "", Msg(pkg+".Leaf"))),
+			M("Page", F("title", 1, "string", Examples("t1", "t2")), F("users", 2, "", Msg(pkg+".User"), MapOf("string")), F("first", 3, "", Msg(pkg+".User")), F("ratio", 4, "double"))}
+		pool := []string{"Leaf", "User", "Page"}
+		var svcs []*Service
+		ns := 2 + rng.Intn(2)
+		for si := 0; si < ns; si++ {
+			sn := "Svc" + string(rune('A'+si))
+			sv := Svc(sn, "/"+sn)
+			nm := 1 + rng.Intn(3)
+			for mi := 0; mi < nm; mi++ {
+				mn := []string{"Get", "Find", "Load"}[mi] + sn
+				sv.Methods = append(sv.Methods, RPC(mn, pkg+".Req", pkg+"."+pool[rng.Intn(len(pool))], "POST", "/"+mn))
+			}
+			svcs = append(svcs, sv)
+		}
+		r := mockReq(id, nil, msgs, svcs...)
+		r.Tags = []string{"mock", "random", "samekind"}
+		out = append(out, r)
+	}
 	return out
 }
 
